@@ -44,6 +44,8 @@ def gen(c, uid):
     structs.append((sn, width, leaves))
   for d in range(c.randint(2, 4)):
     mk(d)
+  if c.random() < 0.25:
+    return gen_same_name(c, uid, L)
   sn, sw, sl = structs[-1]
   picks = c.sample(sl, min(len(sl), c.randint(1, 4)))
   # a struct OUTPUT with list fields is known finding F13 in the Yosys backend (flattened variables driven
@@ -69,3 +71,25 @@ def gen(c, uid):
   else:
     L += ["class Top_%s(Core_%s):" % (uid, uid), "  pass"]
   return "\n".join(L) + "\n", {"depth": len(structs), "width": sw, "leaves": len(sl)}
+
+
+def gen_same_name(c, uid, L):
+  """two DIFFERENT struct types that share the class name and the total width (a parametrised message
+  factory called with two splits): req / resp ports of the two types, packed values and leaves observed"""
+  total = c.choice([8, 12, 16])
+  cut1 = c.randint(1, total - 1)
+  cut2 = c.choice([x for x in range(1, total) if x != cut1])
+  n1, n2 = c.sample(["opaque", "data", "k", "zz"], 2)
+  L.append("def mk_msg_%s(a, b):" % uid)
+  L.append("  return mk_bitstruct('Msg_%s', {'%s': mk_bits(a), '%s': mk_bits(b)})" % (uid, n1, n2))
+  L.append("Req_%s = mk_msg_%s(%d, %d)" % (uid, uid, cut1, total - cut1))
+  L.append("Resp_%s = mk_msg_%s(%d, %d)" % (uid, uid, cut2, total - cut2))
+  L += ["", "class Top_%s(Component):" % uid, "  def construct(s):",
+        "    s.req = InPort(Req_%s)" % uid, "    s.resp = InPort(Resp_%s)" % uid,
+        "    s.req_bits = OutPort(mk_bits(%d))" % total, "    s.resp_bits = OutPort(mk_bits(%d))" % total,
+        "    s.req_out = OutPort(Req_%s)" % uid, "    s.resp_out = OutPort(Resp_%s)" % uid,
+        "    s.l0 = OutPort(mk_bits(%d))" % cut1, "    s.l1 = OutPort(mk_bits(%d))" % (total - cut2),
+        "    @update", "    def up():", "      s.req_bits @= s.req", "      s.resp_bits @= s.resp",
+        "      s.req_out @= s.req", "      s.resp_out @= s.resp",
+        "      s.l0 @= s.req.%s" % n1, "      s.l1 @= s.resp.%s" % n2, ""]
+  return "\n".join(L) + "\n", {"depth": 1, "width": total, "leaves": 2, "same_name_structs": 1}
